@@ -27,7 +27,7 @@ def pkg_cases(draw, max_classes: int = 7):
     for i in range(n):
         pool: list = list(range(i))
         # dense hierarchies: prefer 2-3 bases once they are available
-        size = draw(st.sampled_from((0, 1, 1, 2, 2, 2, 3, 3))) if pool else 0
+        size = draw(st.sampled_from((0, 1, 1, 1, 2, 2, 2, 3))) if pool else 0
         size = min(size, len(pool))
         bs: list = draw(st.permutations(pool))[:size] if size else []
         if ext_pool and len(bs) < 3 and draw(st.integers(0, 3)) == 0:
@@ -46,5 +46,7 @@ def pkg_cases(draw, max_classes: int = 7):
                 forms.append(draw(st.sampled_from(cross_forms)))
         bases.append(bs)
         via.append(forms)
-    members = H.members_from_bits(draw(st.integers(0, 8 ** (len(H.NAMES) * n) - 1)), n)
+    # one fixed-size draw (uniform bits; st.integers would be heavily skewed towards 0 = no members at all)
+    nbytes = (3 * len(H.NAMES) * n + 7) // 8
+    members = H.members_from_bits(int.from_bytes(draw(st.binary(min_size=nbytes, max_size=nbytes)), "little"), n)
     return {"kind": "pkg", "bases": bases, "members": members, "mods": mods, "via": via, "resolve": resolve}
